@@ -6,7 +6,8 @@ import (
 )
 
 var checks = map[string]func(*Ctx){
-	"C14": runC14,
+	"C14":    runC14,
+	"corpus": runCorpus,
 }
 
 func main() {
